@@ -316,7 +316,7 @@ Violate ==
                           site |-> [k |-> prog[i].k, lit |-> "", prev |-> IF i > 1 THEN prog[i - 1].k ELSE "", next |-> IF i < Len(prog) THEN prog[i + 1].k ELSE "",
                                     first |-> "", tabs |-> LeadTabs(prog[i].items)]]
     /\ phase' = "violated"
-    /\ UNCHANGED <<nfun, body, open, elseOK, ndecl, scope>>
+    /\ UNCHANGED <<nfun, body, open, elseOK, ndecl, scope, wrapped>>
 
 VNext == Next \/ Violate
 VSpec == Init /\ [][VNext]_nvars
